@@ -56,7 +56,7 @@ FLOORS = {
                  "seen": {"db": 4, "universe": 2}},
 }
 CASE_TIMEOUT = {"quick": 60, "thorough": 120}
-SIZES = {"quick": 1000, "thorough": 16000}
+SIZES = {"quick": 1300, "thorough": 20000}
 
 
 def shard_setup(tier):
@@ -70,7 +70,7 @@ def gen_cases(tier, seed):
     while produced < SIZES[tier]:
         rng = intuniv.rng_for(seed, "C17", i)
         i += 1
-        if rng.random() < 0.75:
+        if rng.random() < 0.65:
             case = gen.rand_search_case(rng, bytes_p=0.35)
             if rw.is_empty(case["cls"]):
                 continue
@@ -78,14 +78,75 @@ def gen_cases(tier, seed):
         else:
             case = {"universe": "table", "table": table.random_table(rng, p_empty=0.15),
                     "db": rng.choice(gen.DBS), "iterative": rng.random() < 0.2}
+            trng = intuniv.rng_for(seed, "C17/cycles", i)
+            if trng.random() < 0.6:
+                # directed cycles of one-way single-child rows: edges recorded before the
+                # pickle, the cycle closed after it
+                for _ in range(trng.randint(1, 2)):
+                    table.add_one_way_cycle(trng, case["table"])
+                if trng.random() < 0.4:
+                    table.add_twin_unary_rows(trng, case["table"])
+                case["cycles"] = True
+                case["db"] = trng.choice(("base", "base", "forget", "forget", "forest"))
+                case["iterative"] = False
         case["k"] = rng.choice((0, 1, 1, 2, 3, 4, 5, 6, 8, 10, 13, 17, 22, 30))
         case["further"] = sorted(rng.sample(range(1, 25), rng.choice((0, 0, 1, 2))))
         case["rng_seed"] = rng.randrange(10 ** 6)
         case["smallest"] = (case.get("pack", {}).get("iterative") is False or case["universe"] == "table"
                             and not case.get("iterative")) and rng.random() < 0.2
+        if intuniv.rng_for(seed, "C17/mid", i).random() < 0.3:
+            # time limit falling *inside* an expansion period of several packets
+            mrng = intuniv.rng_for(seed, "C17/mid2", i)
+            case["mid"] = {"costs": [mrng.choice((1.5, 2.5, 4.5, 9.5, 30.5)) for _ in range(mrng.randint(1, 3))],
+                           "perc": mrng.choice((50, 100, 100)),
+                           "limits": sorted(mrng.sample(range(1, 40), mrng.choice((1, 1, 2))))}
         case.update(id=produced, N=N[tier])
         produced += 1
         yield case
+
+
+def run_mid(case, cx, words_universe):
+    """The time limit runs out in the middle of an expansion period (periods of several work
+    packets).  Judged: no work packet is lost between the queue and the expansion (ambient
+    accounting of vmon.m_search), and the search, called again, ends as an uninterrupted one
+    does: same outcome, correct specification."""
+    from comb_spec_searcher.exception import ExceededMaxtimeError, SpecificationNotFound
+
+    m_search.reset()
+    ref = Run(build(case), case).go()
+    mid = case["mid"]
+    s = build(case)
+    clk, _ = vclock.install(vclock.VirtualClock(), vclock.BudgetClock(1))
+    vrng.set_rng(vrng.ScriptedRNG(case["rng_seed"]))
+    sched = vclock.Schedule(clk, "sliced", mid["costs"], mid["perc"])
+    st = m_search.attach(s, sched)
+    outcome, spec, interruptions = None, None, 0
+    for limit in list(mid["limits"]) + [None]:
+        kwargs = {"perc": mid["perc"], "smallest": bool(case["smallest"])}
+        if limit is not None:
+            kwargs["max_expansion_time"] = limit + 0.5
+        before = len(st.packets)
+        try:
+            spec = s.auto_search(**kwargs)
+            outcome = "spec"
+        except ExceededMaxtimeError:
+            outcome = "interrupted"
+            interruptions += 1
+            cx.count("resume.midperiod_interruptions")
+            cx.see("midperiod_packets_in_call", len(st.packets) - before)
+        except SpecificationNotFound:
+            outcome = "notfound"
+        if outcome != "interrupted":
+            break
+    iterative = bool(case.get("pack", {}).get("iterative") or case.get("iterative"))
+    if not iterative and outcome != ref.outcome:
+        cx.violation("C17:resumed-diverges-from-reference:outcome",
+                     f"search interrupted {interruptions}x inside an expansion period ends with {outcome}, "
+                     f"the uninterrupted one with {ref.outcome}", None)
+    if words_universe and outcome == "spec":
+        searchlib.check_enumeration(spec, case["cls"], case["N"], mech="C17:final-specification-wrong-count")
+        cx.count("resume.final_specs_judged")
+    return {"nontrivial": interruptions >= 1 and len(st.packets) >= 6, "fingerprint": fp(case)}
 
 
 def build(case):
@@ -149,7 +210,16 @@ def digest(s):
     else:
         keys = sorted(db)
     verified = [bool(db.is_verified(l)) for l in range(n)]
-    return {"classes": classes, "empties": empties, "keys": keys, "verified": verified}
+    out = {"classes": classes, "empties": empties, "keys": keys, "verified": verified}
+    eq = getattr(db, "equivdb", None)
+    if eq is not None:
+        # the equivalence partition after a cycle detection (final state only: this mutates)
+        eq.connect_cycles()
+        groups = {}
+        for l in range(n):
+            groups.setdefault(eq[l], []).append(l)
+        out["equivalence_classes"] = sorted(groups.values())
+    return out
 
 
 def _truth_empty(c):
@@ -167,7 +237,20 @@ def run_case(case):
         m_spec.set_context(packs=None, judge_productivity=case["db"].startswith("forest"), truth_empty=None)
     cx.see("db", case["db"])
     cx.see("universe", case["universe"])
+    if case.get("cycles"):
+        cx.count("resume.tables_with_one_way_cycles")
     try:
+        if case.get("mid"):
+            return run_mid(case, cx, words_universe)
+        if case.get("cycles"):
+            # small universes: every interruption point 1..12 is taken (the pickle must fall
+            # between the first and the last edge of a cycle to matter)
+            out = None
+            for k in range(1, 13):
+                r = _run(dict(case, k=k), cx, words_universe)
+                if out is None or (r.get("nontrivial") and not out.get("nontrivial")):
+                    out = r
+            return out
         return _run(case, cx, words_universe)
     finally:
         m_spec.set_context()
